@@ -626,6 +626,10 @@ def run_case(case):
         if len(bad) != 1:       # the join of a single key is the key itself
             joins[', '.join(bad)] = 'CJoin ' + clist([cn(intern(k)) for k in bad])
     rec.count('kind_' + kind)
+    if case.get('lay') or case.get('rlay'):
+        rec.count('cases_with_non_C_layouts')
+        for code in set((case.get('lay') or '') + (case.get('rlay') or '')):
+            rec.count('layout_' + code)
     rec.count('verdict_' + str(verdict))
     first_false = kind in CORR_KINDS and not bool(result.first_test_res)
     renders = []
